@@ -100,5 +100,10 @@ func (b *Stack[T]) WaitSizeIsAbove(threshold int) {
 }
 
 func (b *Stack[T]) SignalShutdown() {
+	// broadcast while holding the mutex: a PopOrWait that has just evaluated its wait condition still holds the mutex
+	// until it is registered as a waiter, so the signal cannot fall into the gap between the two.
+	b.mutex.Lock()
+	defer b.mutex.Unlock()
+
 	b.elementAdded.Broadcast()
 }
